@@ -2,12 +2,22 @@
    (modified) library gate with closed parameters on registers, slices or bits; the conditional is emitted with its blocks
    unrolled. *)
 From Coq Require Import ZArith List Bool String Lia.
-From Verif Require Import Aexp BGate PyVal CastPrim Ast State GatesGen GateLib Unroll ResolveProofs Depth DepthModel ExprProofs FixProofs ParamProofs LoopProofs BroadcastProofs ModUnrollProofs.
+From Verif Require Import Aexp BGate PyVal CastPrim Ast State GatesGen GateLib Unroll ResolveProofs Depth DepthModel ExprProofs FixProofs ParamProofs LoopProofs BroadcastProofs ModUnrollProofs LoopModProofs.
 Import ListNotations.
 Open Scope Z_scope.
 
+Section Br.
+(* a further handler for block statements (calls of defined gates, Lang/GateDefProofs.v) *)
+Variable hcb : renv -> list (string * gatedef) -> stmt -> option (list stmt * list (list rsrc)).
+Variable nmin : nat.
+Hypothesis hcb_fix : forall check_only f env G s stm o e, (nmin <= f)%nat ->
+  Regs env s -> gates s = G -> gstack s = [] -> hcb env G stm = Some (o, e) ->
+  exists s1, visit_stmt check_only [] (S f) stm s = Ok ((if check_only then [] else o), s1) /\ DE s s1 /\ Dstep s s1 e.
+Hypothesis hcb_ops : forall env G stm o e, hcb env G stm = Some (o, e) -> forallb (op_ok env) o = true.
+
 Definition hb (env : renv) (G : list (string * gatedef)) (stm : stmt) : option (list stmt * list (list rsrc)) :=
-  if simple_op stm && op_ok env stm then Some ([stm], ev_of stm) else mod_ok env G stm.
+  if simple_op stm && op_ok env stm then Some ([stm], ev_of stm)
+  else match mod_ok env G stm with Some r => Some r | None => hcb env G stm end.
 
 Definition hblock (env : renv) (G : list (string * gatedef)) (l : list stmt) : option (list stmt * list (list rsrc)) :=
   match mapM (hb env G) l with
@@ -19,32 +29,38 @@ Section B.
 Variable check_only : bool.
 Variable f : nat.
 
-Lemma hb_fix env G s stm o e : Regs env s -> gates s = G -> hb env G stm = Some (o, e) ->
+Hypothesis Hf : (nmin <= f)%nat.
+
+Lemma hb_fix env G s stm o e : Regs env s -> gates s = G -> gstack s = [] -> hb env G stm = Some (o, e) ->
   exists s1, visit_stmt check_only [] (S f) stm s = Ok ((if check_only then [] else o), s1) /\ DE s s1 /\ Dstep s s1 e.
 Proof.
-  intros R HG H. unfold hb in H. destruct (simple_op stm && op_ok env stm) eqn:C.
+  intros R HG HS H. unfold hb in H. destruct (simple_op stm && op_ok env stm) eqn:C.
   - injection H as <- <-. apply andb_true_iff in C as [Hs Eo].
     assert (Hd : (sdepth stm < S f)%nat) by (destruct stm; try discriminate Hs; cbn; lia).
     exact (op_fix check_only (S f) stm env s Hd R Eo).
-  - eapply mod_fix; eauto.
+  - destruct (mod_ok env G stm) as [[o' e']|] eqn:Em.
+    + injection H as <- <-. eapply mod_fix; eauto.
+    + eapply hcb_fix; eauto.
 Qed.
 
 Lemma hb_ops env G stm o e : hb env G stm = Some (o, e) -> forallb (op_ok env) o = true.
 Proof.
   unfold hb. destruct (simple_op stm && op_ok env stm) eqn:C.
   - intros H. injection H as <- _. apply andb_true_iff in C as [_ Eo]. cbn. now rewrite Eo.
-  - apply mod_ok_ops.
+  - destruct (mod_ok env G stm) as [[o' e']|] eqn:Em.
+    + intros H. injection H as <- <-. eapply mod_ok_ops; eauto.
+    + apply hcb_ops.
 Qed.
 
-Lemma hblock_fix env G l : forall s out evs, Regs env s -> gates s = G -> hblock env G l = Some (out, evs) ->
+Lemma hblock_fix env G l : forall s out evs, Regs env s -> gates s = G -> gstack s = [] -> hblock env G l = Some (out, evs) ->
   exists s', visit_block (visit_stmt check_only [] (S f)) l s = Ok ((if check_only then [] else out), s') /\ DE s s' /\ Dstep s s' evs.
 Proof.
-  unfold hblock, visit_block. intros s out evs R HG H. destruct (mapM (hb env G) l) as [parts|] eqn:Ep; [|discriminate H]. injection H as <- <-.
-  revert s parts R HG Ep. induction l as [|x l IH]; intros s parts R HG Ep; cbn [mapM] in Ep.
+  unfold hblock, visit_block. intros s out evs R HG HS H. destruct (mapM (hb env G) l) as [parts|] eqn:Ep; [|discriminate H]. injection H as <- <-.
+  revert s parts R HG HS Ep. induction l as [|x l IH]; intros s parts R HG HS Ep; cbn [mapM] in Ep.
   - injection Ep as <-. exists s. split; [destruct check_only; reflexivity|]. split; [apply DE_refl|apply Dstep_same; reflexivity].
   - destruct (hb env G x) as [[o e]|] eqn:Eb; [|discriminate Ep]. destruct (mapM (hb env G) l) as [parts'|] eqn:Em; [|discriminate Ep]. injection Ep as <-.
-    destruct (hb_fix env G s x o e R HG Eb) as (s1 & E1 & D1 & S1).
-    destruct (IH s1 parts' (Regs_DE _ _ _ R D1)) as (s2 & E2 & D2 & S2); [now rewrite (DE_gates _ _ D1)|reflexivity|].
+    destruct (hb_fix env G s x o e R HG HS Eb) as (s1 & E1 & D1 & S1).
+    destruct (IH s1 parts' (Regs_DE _ _ _ R D1)) as (s2 & E2 & D2 & S2); [now rewrite (DE_gates _ _ D1)|now rewrite (DE_gstack _ _ D1)|reflexivity|].
     cbn [concatMM]. rewrite (bind_eq _ _ s (if check_only then [] else o) s1 E1).
     rewrite (bind_eq _ _ s1 (if check_only then [] else List.concat (map fst parts')) s2 E2). exists s2.
     split; [unfold ret; destruct check_only; reflexivity|]. split; [eapply DE_trans; eauto|].
@@ -53,20 +69,21 @@ Qed.
 
 (* the conditional: both blocks unrolled under the same condition *)
 Lemma branch_gen env G s lhs rhs t e ot et oe ee :
-  Regs env s -> gates s = G -> cond_ok env lhs rhs = true -> t <> [] ->
+  Regs env s -> gates s = G -> gstack s = [] -> cond_ok env lhs rhs = true -> t <> [] ->
   hblock env G t = Some (ot, et) -> hblock env G e = Some (oe, ee) ->
   exists s', visit_branch check_only (visit_stmt check_only [] (S f)) (visit_call check_only [] (S f)) (EBin "==" lhs (ELit rhs)) t e s
              = Ok ((if check_only then [] else [SIf (EBin "==" lhs (ELit rhs)) ot oe]), s') /\ DE s s' /\ Dstep s s' (et ++ ee).
 Proof.
-  intros R HG Hc Ht Hbt Hbe. unfold visit_branch. fold (pushed s).
+  intros R HG HS Hc Ht Hbt Hbe. unfold visit_branch. fold (pushed s).
   rewrite (bind_eq _ _ s tt (pushed s) eq_refl).
   assert (negb (match t with [] => true | _ :: _ => false end) = true) as -> by (destruct t; [congruence|reflexivity]).
   cbn [guard]. rewrite (bind_eq _ _ (pushed s) tt (pushed s) eq_refl).
   rewrite (bind_eq _ _ (pushed s) (pushed s) (pushed s) eq_refl).
   pose proof (Regs_pushed env s R) as Rp.
   assert (Gp : gates (pushed s) = G) by (destruct s; exact HG).
-  destruct (hblock_fix env G t (pushed s) ot et Rp Gp Hbt) as (s2 & E2 & D2 & S2).
-  destruct (hblock_fix env G e s2 oe ee (Regs_DE _ _ _ Rp D2)) as (s3 & E3 & D3' & S3'); [now rewrite (DE_gates _ _ D2)|exact Hbe|].
+  assert (Sp : gstack (pushed s) = []) by (destruct s; exact HS).
+  destruct (hblock_fix env G t (pushed s) ot et Rp Gp Sp Hbt) as (s2 & E2 & D2 & S2).
+  destruct (hblock_fix env G e s2 oe ee (Regs_DE _ _ _ Rp D2)) as (s3 & E3 & D3' & S3'); [now rewrite (DE_gates _ _ D2)|now rewrite (DE_gstack _ _ D2)|exact Hbe|].
   assert (D3 : DE (pushed s) s3) by (eapply DE_trans; eauto).
   assert (S3 : Dstep (pushed s) s3 (et ++ ee)) by (eapply Dstep_trans; eauto).
   assert (Spop : Dstep s (popped s3) (et ++ ee)).
@@ -126,10 +143,10 @@ Definition branch_ok (env : renv) (G : list (string * gatedef)) (stm : stmt) : o
   | _ => None
   end.
 
-Lemma branch_ok_fix check_only f env G s stm out evs : Regs env s -> gates s = G -> branch_ok env G stm = Some (out, evs) ->
+Lemma branch_ok_fix check_only f env G s stm out evs : (nmin <= f)%nat -> Regs env s -> gates s = G -> gstack s = [] -> branch_ok env G stm = Some (out, evs) ->
   exists s', visit_stmt check_only [] (S (S f)) stm s = Ok ((if check_only then [] else out), s') /\ DE s s' /\ Dstep s s' evs.
 Proof.
-  intros R HG H. destruct stm; try discriminate H. cbn [branch_ok] in H.
+  intros Hnf R HG HS H. destruct stm; try discriminate H. cbn [branch_ok] in H.
   destruct cond; try discriminate H. destruct cond2; try discriminate H.
   match type of H with (if ?c then _ else _) = _ => destruct c eqn:C; [|discriminate H] end.
   destruct (hblock env G then_) as [[ot et]|] eqn:Et; [|discriminate H]. destruct (hblock env G else_) as [[oe ee]|] eqn:Ee; [|discriminate H].
@@ -148,3 +165,4 @@ Proof.
   match type of H with (if ?c then _ else _) = _ => destruct c eqn:Eo; [|discriminate H] end. injection H as <- _.
   cbn [forallb]. now rewrite Eo.
 Qed.
+End Br.
